@@ -93,7 +93,18 @@ func installRouter() {
 // daemon serves the model pin table with go-ipfs's HTTP API semantics.
 type daemon struct{ m *IPFS }
 
+// RealFailShape selects how an injected daemon failure (ErrIPFS) looks on the
+// wire: "" = go-ipfs's JSON error with status 500; "nonjson502" = what a
+// gateway in front of the daemon answers (502 with an HTML body).
+var RealFailShape string
+
 func ipfsErr(w http.ResponseWriter, msg string) {
+	if RealFailShape == "nonjson502" && msg == ErrIPFS.Error() {
+		w.Header().Set("Content-Type", "text/html")
+		w.WriteHeader(502)
+		w.Write([]byte("<html><body><h1>502 Bad Gateway</h1></body></html>"))
+		return
+	}
 	w.Header().Set("Content-Type", "application/json")
 	w.WriteHeader(500)
 	json.NewEncoder(w).Encode(map[string]interface{}{"Message": msg, "Code": 0, "Type": "error"})
